@@ -213,6 +213,23 @@ class Body:
                         out.add((e, x[1]))
         return out
 
+    def driven_clocks(self):
+        """clock nets that are connected to an input port of the design through plain `assign x = y` chains (a flattened
+        hierarchy hands the clock down that way); a clock net nobody drives never rises"""
+        src = {}
+        for it in self.assigns:
+            if it[1][0] == 'id' and isinstance(it[2], tuple) and it[2] and it[2][0] == 'id':
+                src[it[1][1]] = it[2][1]
+        out = set()
+        for _, c in self.clocks():
+            x, seen = c, set()
+            while x in src and x not in seen:
+                seen.add(x)
+                x = src[x]
+            if self.kind.get(x) in ('input', 'inout'):
+                out.add(c)
+        return out
+
     def used_idents(self):
         out = set()
         for it in self.assigns + self.always + self.initials:
